@@ -57,7 +57,10 @@ def scripts(draw, flavours=("async-serial", "async-tcp", "sync-serial", "sync-tc
         if k == "stop":
             events.append(["advance", rt * 3])
             break
-    return {"flavour": flavour, "rt": rt, "kind": "events", "dials": dials, "events": events}
+    case = {"flavour": flavour, "rt": rt, "kind": "events", "dials": dials, "events": events}
+    if events and events[-1][0] == "advance" and ["stop"] in events and draw(st.booleans()):
+        case["save_fails"] = True  # persistence enabled and the final save inside stop() fails (disk full)
+    return case
 
 
 # -- running a script ---------------------------------------------------------------------------------
@@ -68,10 +71,10 @@ def make_world(case):
     if flavour.startswith("async"):
         from vf import sim_async
 
-        return sim_async.World("tcp" if flavour.endswith("tcp") else "serial", case["rt"])
+        return sim_async.World("tcp" if flavour.endswith("tcp") else "serial", case["rt"], save_fails=bool(case.get("save_fails")))
     from vf import sim_thread
 
-    return sim_thread.World("tcp" if flavour.endswith("tcp") else "serial", case["rt"])
+    return sim_thread.World("tcp" if flavour.endswith("tcp") else "serial", case["rt"], save_fails=bool(case.get("save_fails")))
 
 
 def run_script(case):
